@@ -74,6 +74,25 @@ var relNames = [8]string{"is empty (no instant at which all certificates are val
 var chainInKeys [3][8]string
 var typeKeys = map[x509.CertificateType]string{}
 
+// The shared windows of c11/pki put the end of W1 / the start of W2 30 s before the end of W0: "valid one second
+// before the certificate's expiry" is then indistinguishable from "valid 2..29 s before it". C12 is the only user
+// of the windows (C11 mints everything in window 0), so, until c11/pki carries such a boundary itself, this process
+// moves that shared boundary to 2 s before the end of W0: a parent in W2 is then valid at NotAfter-1 s of a W0
+// child and NOT valid (its window begins exactly then) at NotAfter-2 s, and a fortiori not earlier.
+func init() {
+	want := pki.Windows[0].NotAfter.Add(-2 * time.Second)
+	for _, w := range pki.Windows {
+		if w.NotBefore.Equal(want) {
+			return // c11/pki already has the boundary
+		}
+	}
+	if !pki.Windows[1].NotAfter.Equal(pki.Windows[2].NotBefore) {
+		panic("c12: windows 1 and 2 of c11/pki no longer touch")
+	}
+	pki.Windows[1].NotAfter = want
+	pki.Windows[2].NotBefore = want
+}
+
 func init() {
 	for li := range listNames {
 		for r := range relNames {
@@ -162,7 +181,8 @@ var freshLeaf = pki.Node{Subject: "c12 fresh leaf", Key: "c12-fresh", CA: false,
 const siblingVariant = 7
 
 var oneCRLKinds = []string{"nil", "lists the certificate (issuer name + serial)", "same issuer, other serial", "other issuer, same serial",
-	"blocks the certificate's subject + key hash", "blocks the subject with another key hash", "empty"}
+	"blocks the certificate's subject + key hash", "blocks the subject with another key hash", "empty",
+	"blocks another subject with the certificate's key hash"}
 var crlSetKinds = []string{"nil", "lists (issuer SPKI hash, serial)", "issuer SPKI hash, other serial", "issuer SPKI hash blocked", "other SPKI hash listed with the serial and blocked", "empty",
 	"issuer SPKI hash blocked, base64 form (as google.Parse leaves the header entries)"}
 
@@ -196,6 +216,9 @@ func mkOneCRL(kind int, c *pki.Cert, other *pki.Cert) *mozilla.OneCRL {
 			&mozilla.SubjectAndPublicKey{RawSubject: c.X.RawSubject, PubKeyHash: sha(c.X.RawSubjectPublicKeyInfo)})
 	case 5:
 		o.Blocked = append(o.Blocked, &mozilla.SubjectAndPublicKey{RawSubject: c.X.RawSubject, PubKeyHash: sha(other.X.RawSubjectPublicKeyInfo)})
+	case 7:
+		// the key hash alone must not be enough: a Blocked record names a (subject, key) pair
+		o.Blocked = append(o.Blocked, &mozilla.SubjectAndPublicKey{RawSubject: other.X.RawSubject, PubKeyHash: sha(c.X.RawSubjectPublicKeyInfo)})
 	}
 	return o
 }
@@ -265,6 +288,8 @@ type caseT struct {
 	oneCRLs []*mozilla.OneCRL
 	crlSets []*google.CRLSet
 	issSPKI string
+	// some walked chain (of any date class) has a second certificate whose key is the key this certificate was issued under
+	secondWithIssuerKey bool
 }
 
 // prepare builds the revocation sets of this certificate once.
@@ -479,20 +504,28 @@ func (k *caseT) verifyOne(c *ev.Ctx, h ev.Hist, t time.Time, tnote, name string,
 		h["valid-at-expiration chains: none"]++
 	}
 
-	// --- Expired: "false if NotBefore < VerifyTime < NotAfter"
+	// --- Expired: "false if NotBefore < VerifyTime < NotAfter" (VerificationResult.Expired; x509.TimeInValidityPeriod:
+	// "returns true if NotBefore < t < NotAfter"; DESIGN: Expired <=> not (NotBefore < t < NotAfter)). Both comparisons are
+	// strict in the documentation and in the code, so ON NotBefore and ON NotAfter the certificate is not inside: Expired.
 	inside := t.After(win.NotBefore) && t.Before(win.NotAfter)
 	boundary := t.Equal(win.NotBefore) || t.Equal(win.NotAfter)
 	switch {
 	case inside && res.Expired:
 		viol("Expired is true although NotBefore < VerifyTime < NotAfter", "")
-	case !inside && !boundary && !res.Expired:
+	case boundary && !res.Expired:
+		if t.Equal(win.NotBefore) {
+			viol("Expired is false although VerifyTime is exactly NotBefore (documented: false only if NotBefore < VerifyTime < NotAfter)", "")
+		} else {
+			viol("Expired is false although VerifyTime is exactly NotAfter (documented: false only if NotBefore < VerifyTime < NotAfter)", "")
+		}
+	case !inside && !res.Expired:
 		if t.Before(win.NotBefore) {
 			viol("Expired is false although VerifyTime is before NotBefore", "")
 		} else {
 			viol("Expired is false although VerifyTime is after NotAfter", "")
 		}
 	case boundary:
-		h["Expired on a boundary instant (either accepted)"]++
+		h["Expired = true exactly on NotBefore / NotAfter"]++
 	case res.Expired:
 		h["Expired = true"]++
 	default:
@@ -588,7 +621,7 @@ func (k *caseT) verifyOne(c *ev.Ctx, h ev.Hist, t time.Time, tnote, name string,
 
 	// --- InRevocationSet: OneCRL lists the certificate, or the CRLSet lists it under the SPKI of one of its parents
 	wantRev := oneCRLLists(ok)
-	either := false
+	either, noParentKey := false, false
 	if !wantRev && ck != 0 {
 		for _, p := range res.Parents {
 			ps := ""
@@ -602,14 +635,23 @@ func (k *caseT) verifyOne(c *ev.Ctx, h ev.Hist, t time.Time, tnote, name string,
 			}
 		}
 		if !wantRev && len(res.Parents) == 0 && crlSetLists(ck, issuerSPKI, issuerSPKI) {
-			// the set lists the certificate under its issuer's key, but the verifier knows no parent
-			// to evaluate it against: the statement does not say which way this goes
-			either = true
+			// The set lists the certificate under its issuer's key, but Parents is empty. A CRLSet is keyed by the hash
+			// of the ISSUER's key, which the certificate does not carry: the verifier can only evaluate the set against
+			// the key of a certificate it knows as a parent. If some walked chain (of whatever date class) has a second
+			// certificate with the listed key, the answer depends on which chains supply "the parents" for this purpose —
+			// the statement does not say, either is accepted. If NO walked chain has one, no reading of the statement
+			// gives the verifier a key under which the set lists the certificate: the flag must stay false.
+			either = k.secondWithIssuerKey
+			noParentKey = !either
 		}
 	}
 	switch {
 	case either:
-		h[fmt.Sprintf("revocation: CRLSet lists the certificate but it has no parent (either accepted; InRevocationSet=%v)", res.InRevocationSet)]++
+		h[fmt.Sprintf("revocation: CRLSet lists the certificate under the key of a second certificate of a walked chain that is not among Parents (either accepted; InRevocationSet=%v)", res.InRevocationSet)]++
+	case noParentKey && res.InRevocationSet:
+		viol(fmt.Sprintf("InRevocationSet is true although no OneCRL lists the certificate and no walked chain gives it a parent under whose key the CRLSet could list it [CRLSet: %s]", crlSetKinds[ck]), "")
+	case noParentKey:
+		h["revocation: CRLSet names the issuer key but no walked chain has a parent with that key (not listed)"]++
 	case wantRev && !res.InRevocationSet:
 		src := "the CRLSet lists it (" + crlSetKinds[ck] + ")"
 		if oneCRLLists(ok) {
@@ -788,6 +830,11 @@ func graphState(c *ev.Ctx, u *pki.Universe, s *pki.Spec, bd bounds, h ev.Hist, o
 			k.walked[key] = ref
 		}
 		k.prepare()
+		for _, ref := range k.walked {
+			if ref.second != nil && u.ByPtr(ref.second).SPKIHash == k.issSPKI {
+				k.secondWithIssuerKey = true
+			}
+		}
 		c.Evaluations.Add(1)
 		if len(k.walked) > 0 {
 			c.Distinct.Add(1)
@@ -846,7 +893,7 @@ func main() {
 					states = append(states, stateT{x, bd})
 				}
 			}
-			ruleStates = "the first 8 hand-listed shapes x every assignment of the 4 validity windows with at most 1 certificate outside window 0; per state: every certificate of the graph + a fresh leaf (not in the graph) under every node + a leaf with unknown issuer; the first 4 names, the first 5 OneCRL and the first 5 CRLSet contents"
+			ruleStates = "the first 8 hand-listed shapes x every assignment of the 4 validity windows with at most 1 certificate outside window 0; per state: every certificate of the graph + a fresh leaf (not in the graph) under every node + a leaf with unknown issuer; all names, OneCRL and CRLSet contents"
 		} else {
 			// all 16 shapes with <= 1 deviation and everything; the first 8 shapes also with exactly 2 deviations (without the siblings)
 			noSib := full
@@ -879,12 +926,13 @@ func main() {
 		}
 		c.Set("graph_states", map[string]any{"states": len(states), "per_shape": perShape})
 		c.Set("windows", pki.Windows)
-		c.Rule("graph states = hand-listed shapes of the C11 families (straight chains, two roots, parallel certificates, cross-signed roots, cycles, mutual cross-signs, key rollover, dangling issuer, non-CA intermediate, parallel root/non-root certificates, cycle edge as root, lone self-signed root): " + ruleStates + "; VerifyTime = every distinct NotBefore/NotAfter of the state's certificates x {-1 s, 0, +1 s} (this includes NotAfter-1 s); Name = {\"\", exact SAN or CN, wildcard instance in upper case with trailing dot / upper-case CN with dot, other.example, a name one label too deep, the CN of a certificate that has SANs}; OneCRL = {" + strings.Join(oneCRLKinds, " | ") + "}; CRLSet = {" + strings.Join(crlSetKinds, " | ") + "}; full product of certificate x time x name x OneCRL x CRLSet. distinct = (state, certificate) pairs with at least one walked chain")
+		c.Rule("graph states = hand-listed shapes of the C11 families (straight chains, two roots, parallel certificates, cross-signed roots, cycles, mutual cross-signs, key rollover, dangling issuer, non-CA intermediate, parallel root/non-root certificates, cycle edge as root, lone self-signed root): " + ruleStates + "; validity windows: W0 wide, W1 nested in W0 and ending 2 s before W0 ends, W2 beginning at that instant (touching W1, overlapping the last 2 s of W0), W3 disjoint — so a chain through a W2 parent is valid exactly 1 s, and no longer, before a W0 certificate expires; VerifyTime = every distinct NotBefore/NotAfter of the state's certificates x {-1 s, 0, +1 s} (this includes NotAfter-1 s and NotAfter-2 s); Name = {\"\", exact SAN or CN, wildcard instance in upper case with trailing dot / upper-case CN with dot, other.example, a name one label too deep, the CN of a certificate that has SANs}; OneCRL = {" + strings.Join(oneCRLKinds, " | ") + "}; CRLSet = {" + strings.Join(crlSetKinds, " | ") + "}; full product of certificate x time x name x OneCRL x CRLSet. distinct = (state, certificate) pairs with at least one walked chain")
 		c.Assume("Graph.WalkChains is trusted (C11): the reference view of a certificate's chains is one WalkChains call per (state, certificate)",
-			"date classes on an exact boundary instant (VerifyTime equal to the start or end of a chain's common window, or a window that is a single instant) accept both neighbouring lists; the Expired flag is demanded strictly inside and strictly outside the validity period (the documentation says 'false if NotBefore < VerifyTime < NotAfter') and accepted either way ON NotBefore/NotAfter",
-			"Parents: three documented readings are accepted (code comment: valid-at-expiration chains if Expired else current chains; field documentation: chains valid when the certificate expires, optionally restricted to parents valid at VerifyTime)",
+			"date classes on an exact boundary instant (VerifyTime equal to the start or end of a chain's common window, or a window that is a single instant) accept both neighbouring lists; the Expired flag is false exactly when NotBefore < VerifyTime < NotAfter (documentation of VerificationResult.Expired and of TimeInValidityPeriod, both strict): ON NotBefore/NotAfter it must be true",
+			"Parents and CertificateType follow reading R1 (code comment and DESIGN: second certificates of the valid-at-expiration chains if Expired, else of the current chains); the two looser readings of the field documentation only name the mismatch",
 			"OneCRL and CRLSet values are built directly as Go structs in the form Check consumes (IssuerLists keyed by hex SPKI hash as verifier.go passes it; BlockedSPKIs in hex and, thorough tier, in the base64 form google.Parse leaves them in); parsing of the wire formats is C15's subject",
-			"a CRLSet that lists the certificate under its issuer's SPKI while the verifier finds no parent (no relevant chain) is accepted either way; NameError must be nil when no name is given",
+			"a CRLSet that names the key the certificate was issued under while Parents is empty: accepted either way when some walked chain (of any date class) has a second certificate with that key (the statement does not say which chains supply the parents for this purpose); must be 'not listed' when no walked chain has one (the certificate does not carry its issuer's key, so no reading lets the verifier find the listing); NameError must be nil when no name is given",
+		"the shared windows of c11/pki are adjusted in this process (the W1/W2 boundary is moved from 30 s to 2 s before the end of W0) so that 'one second before expiry' is separated from every earlier instant",
 			"fields the statement does not name (VerifyTime, ValidationError, ParentSPKI..., OCSP/CRL fields) are not judged; two observations about them are counted as info outcomes")
 
 		W := c.Workers()
